@@ -1088,6 +1088,15 @@ class C08Session:
             ret = get_symbols(list(names), sp_arg)
             if [s.name for s in ret] != list(names):
                 self.viol("registry", "R3", f"get_symbols({names}) returned {ret}")
+            # clause (f) across the two public entry points
+            again = self.ind.get_indices(list(names), list(spins))
+            flat = {(s_.name,) + self.key_of(s_): s_ for v in again.values() for s_ in v}
+            for s_ in ret:
+                other = flat.get((s_.name,) + self.key_of(s_))
+                if other is not None and other is not s_:
+                    self.viol("registry", "R2", f"get_symbols({names}) and get_indices "
+                              f"returned different objects for {s_}")
+                    break
             return {"n": len(ret)}
         if st["via"] == "get_indices_str" and (all(spins) or not any(spins)):
             ret = self.ind.get_indices("".join(names),
